@@ -68,6 +68,10 @@ CHECKS = {
          "deterministic simulation: the real server.FullAssembly/Services.Start (hub, web, SMTP, POP3, retention) on the simulated network, disk and clock; sessions parked in every protocol state or connecting at the last moment; a driver mirrors main.go's cancel/Drain/Drain/Join; seeded ordering of cancel, client continuation, late dials and scheduler choices",
          "Seeded search over session states at shutdown x number of sessions x cancel instants (including inside the first retention scan) x schedules. Oracle: nothing new is greeted, every session the server had accepted before the request completes normally with its message stored / deletion applied, each Drain returns only after the server side of those sessions is closed and does return, Join within one simulated second, no task panics.",
          "main.go's signal loop is replaced by a driver making the same calls in the same order (a change to that order in main.go itself is not seen); the 15 s forced exit is not modelled. Lua host disabled, TLS off."),
+ "C02": ("exploration", "DESIGN.md §4 C02",
+         "deterministic simulation: one adversarial message per run through the real SMTP server, manager and store on the simulated network (seeded segmentation, small buffers), read back through the store, the REST and web-UI source handlers (real router) and the real POP3 server; byte-exact oracle after CRLF->LF normalisation",
+         "Seeded search over body shapes (dot lines, lone dot, bare CR/LF, NUL/8-bit, lines up to 200 KB / 3 MiB, missing final newline) x back-ends x segmentations of the SMTP and POP3 streams.",
+         "HTTP handlers are invoked through the real router with a recording writer (no net/http server loop). A CR right before CRLF/end of data and a dot right after a bare LF are not generated (no defined expectation)."),
 }
 
 NOT_YET = "check under construction in this session; not claimed until it runs clean on the unchanged tree"
